@@ -271,7 +271,7 @@ pub fn w_run(c: &Cfg) {
     store.stop();
     rt::run_pending(2);
     let g2 = crossbeam::channel::ghost(0);
-    chk!(4, rt::now() == clock && g2.len == g.len && g2.n_send == g.n_send && g2.n_try_send == g.n_try_send, "after stop() nothing changes: no callback, nothing enqueued, further stop() calls do nothing");
+    chk!(4, rt::now() == clock && g2.len == g.len && g2.n_taken == g.n_taken, "after stop() nothing changes: no callback, nothing enqueued, further stop() calls do nothing");
     chk!(4, store.get_state() == fin, "after stop() the state no longer changes");
     let snap = store.get_metrics();
     chk!(18, snap.error_occurred == 2, "error_occurred counts the dispatches StoreImpl::dispatch rejected after close (inherent + Store trait entry points)");
